@@ -9,10 +9,19 @@ def run(tier):
     rep = vlib.Report(PROP, tier)
     binary = vlib.build_harness()
     common.mc_replay(rep, binary, PROP, "MC_C04", keyf=common.default_key)
+    # the u24 maxima: 16 MiB bodies, evaluated by TLC on a lazily defined input, built by the harness from (header, filler)
+    d2, res2, big = vlib.tlc_single(PROP, "u24", "MC_C04_U24", workers=1, heap="6g", timeout=600, out_name="cases.ndjson")
+    rep.add_tlc("MC_C04_U24", res2)
+    outs2 = vlib.replay_cases(binary, d2, big, name="u24")
+    vlib.judge_cases(rep, big, outs2, keyf=common.default_key)
+    rep.cov["traces_validated_against_impl"] += len(big)
+    # (growth) deep decoding as an IDS composes the parsers: ClientHello -> extension list, ServerKeyExchange -> parameters + signature
+    common.mc_replay(rep, binary, PROP, "MC_Deep", keyf=common.default_key, run="deep", nchunks=4)
     return rep.finish("model_checking",
                       "cases = RFC encodings of ~700 abstract handshake values (17 variants, per-field boundary sets incl. "
                       "0/1/32/255/256/65535) with suffixes, each public body parser, every shortened hl of the small values, "
-                      "lying hl (0,1,true-1,true+1,max), the property's rejection list, all 240 unknown type codes; "
+                      "lying hl (0,1,true-1,true+1,max), the property's rejection list, all 240 unknown type codes; 10 messages at the u24 maximum "
+                      "(16 MiB bodies, TLC evaluating a lazily defined input); deep decoding compositions; "
                       "distinct = (function, pin, outcome, value size)")
 
 
